@@ -9,9 +9,12 @@ TimePool == {0 - 3, 0, 2, 7}
 TrTimeLists == SeqsUpTo3(TimePool)
 AllOps == {"EmNew", "EmAppend", "EmExtend", "EmCopy", "EmSlice", "EmIndex", "EmAdd", "EmRemoveSmall", "EmRemoveOv", "EmLink",
            "ArrWrite", "Mutate", "EmMerge", "TcNew", "TcAppend", "TcSlice", "TcCopy", "TcIndex", "TcClear",
-           "TrkNew", "TrkAppend", "TrkSlice", "TrkCopy", "TrkIndex", "TlNew", "TlSlice", "TlRemoveShort", "TlFromTc", "TlSave", "TlLoad", "EmSave", "EmLoad", "TcSave", "TcLoad", "TrkSave", "TrkLoad"}
+           "TrkNew", "TrkAppend", "TrkSlice", "TrkCopy", "TrkIndex", "TlNew", "TlSlice", "TlRemoveShort", "TlFromTc", "TlSave", "TlLoad", "EmLocate", "TcFromStorage", "EmSave", "EmLoad", "TcSave", "TcLoad", "TrkSave", "TrkLoad"}
 TrTlLists == SeqsUpTo3(1..12)
 TrMethods == {[meth |-> "overlap", md |-> 0 - 1], [meth |-> "distance", md |-> 0 - 1], [meth |-> "distance", md |-> 2], [meth |-> "distance", md |-> 0]}
+TrImages == << <<0, 1, 1, 0, 0, 1, 0, 0>>, <<0, 0, 1, 1, 0, 1, 1, 0>>, <<0, 0, 0, 0, 0, 0, 0, 0>>, <<1, 1, 1, 0, 0, 0, 0, 1>> >>
+TrImgLists == SeqsUpTo3(1..4)
+TrWidths == {0 - 1, 2}
 MinDursT == {0 - 1, 0, 2}
 MinRsT == {0 - 1, 0, 1}
 MinDistsT == {0 - 1, 0, 1}
